@@ -45,6 +45,13 @@ NEEDS = {
  "C20-m1": ("box_arr! list arm deduces the length with `{ let _ = &$x; }` per element", "list form with side-effecting element expressions: each evaluated twice"),
  "C20-m2": ("box_arr![x; Ty] = Box::generate(|_| x)", "typenum-length boxed repeat form with a non-idempotent x (or U0: never evaluated)"),
 }
+# rounds 2+: one-line summaries extracted from each delivery's patch + NOTES.md
+try:
+    for name, e in json.load(open(os.path.join(ROOT, "seeded", "summaries.json"))).items():
+        if os.path.isdir(os.path.join(ROOT, "seeded", name)):
+            NEEDS.setdefault(name, (e["change"], e["needs"]))
+except (OSError, ValueError):
+    pass
 res = json.load(open(os.path.join(ROOT, "seeded", "results.json")))
 for name, (what, needs) in NEEDS.items():
     p = os.path.join(ROOT, "seeded", name, "meta.json")
